@@ -139,6 +139,16 @@ class Collector:
         }
 
 
+def pick(k: int, salt: int, seq):
+    """Deterministic, decorrelated rotation through `seq` inside an enumeration: unlike `seq[k % len(seq)]` two
+    selectors with different salts do not move in lock-step with each other or with the loop structure."""
+    x = (k * 2654435761 + salt * 40503 + 12345) & 0xFFFFFFFF
+    x ^= x >> 15
+    x = (x * 2246822519) & 0xFFFFFFFF
+    x ^= x >> 13
+    return seq[x % len(seq)]
+
+
 def derive_seed(seed: int, *parts: typing.Any) -> int:
     return h64(canon([seed, *parts])) & 0x7FFFFFFF
 
